@@ -96,6 +96,8 @@ def install_builtins(E):
             return VInt(len(o.items))
         if isinstance(o, VSeq):
             return VInt(z3.Length(o.t))
+        if isinstance(o, Obj) and o.cls == 'SeqList':
+            return VInt(z3.Length(o.fields['seq']))
         if isinstance(o, VStr):
             return VInt(z3.Length(o.t))
         h = E.builtins.get('__len__')
@@ -516,7 +518,8 @@ def install_os(E):
     E.builtins[('import', 'abc')] = VNamespace('abc', dict(
         ABC=VClass('abc.ABC'), abstractmethod=VStub('abc.abstractmethod', lambda E, a, k: a[0])))
     E.builtins[('import', 'contextlib')] = VNamespace('contextlib', dict(
-        contextmanager=VStub('contextlib.contextmanager', lambda E, a, k: a[0])))
+        contextmanager=VStub('contextlib.contextmanager', lambda E, a, k: a[0]),
+        suppress=VStub('contextlib.suppress', lambda E, a, k: Obj('Suppress', dict(classes=list(a))))))
 
 
 def install_with(E):
